@@ -21,6 +21,7 @@ import (
 	"github.com/google/martian/v3/martianhttp"
 	"github.com/google/martian/v3/martianurl"
 	_ "github.com/google/martian/v3/method"
+	_ "github.com/google/martian/v3/port"
 	"github.com/google/martian/v3/parse"
 	_ "github.com/google/martian/v3/priority"
 	_ "github.com/google/martian/v3/querystring"
@@ -241,6 +242,7 @@ func interp(n *node, response bool, truth func(*condSpec) bool) outcome {
 // matcherSays: which branch the REAL filter built from the condition's JSON takes on the message.
 func matcherSays(c *condSpec, m *message, response bool) bool {
 	register()
+	// (port.Filter has no else branch: its "else" member is ignored and an untouched message means "does not hold")
 	text := fmt.Sprintf(`{"%s": {%s"modifier": {"verif.Probe": {"label": 1, "caps": "b"}}, "else": {"verif.Probe": {"label": 0, "caps": "b"}}}}`, c.filter(), c.params())
 	r, err := parse.FromJSON([]byte(text))
 	if err != nil {
@@ -255,10 +257,21 @@ func matcherSays(c *condSpec, m *message, response bool) bool {
 		r.RequestModifier().ModifyRequest(req)
 		tr = req.Header[traceHeader]
 	}
+	if c.kind == 'p' && len(tr) == 0 {
+		return false
+	}
 	if len(tr) != 1 {
 		panic(fmt.Sprintf("matcherSays: trace %v", tr))
 	}
 	return tr[0] == "1"
+}
+
+func hasPortFilter(n *node) bool {
+	found := false
+	if n != nil {
+		n.walk(func(x *node) { found = found || (x.kind == 'C' && x.cond.kind == 'p') })
+	}
+	return found
 }
 
 func (m *message) describe() string {
@@ -388,6 +401,9 @@ func (e *ex) run(kind string, m *message) core.Result {
 		tr = append(tr, l)
 	}
 	es, flat, ok := canonErr(err)
+	if !ok && response && strings.Contains(err.Error(), "missing port in address") && hasPortFilter(e.active) {
+		return fail("c12:port-filter-response-error", "a response whose request URL (%s://%s) has no explicit port went through a port.Filter for another port: ModifyResponse returned %q instead of leaving the response alone (the request side returns nil); in a group this error stops the group (tree %s)", m.scheme, m.host, err, e.active)
+	}
 	if !ok {
 		return fail("c12:foreign-error", "modifier returned something other than nil, a leaf error, or one MultiError of leaf errors (nesting deeper than one?): %T %v", err, err)
 	}
